@@ -487,7 +487,7 @@ func sigPool(raw json.RawMessage, line string) string {
 	return fmt.Sprintf("pool/%s/%s/%s-%s", pc.Kind, fl, ev.K, ev.By)
 }
 
-var famPool = Register(&Family{Name: "pool", Spec: "Trace_BufPool", Cfg: "Trace_BufPool.cfg", Run: runPoolCase, Sig: sigPool})
+var famPool = Register(&Family{Name: "pool", Spec: "Trace_BufPool", Cfg: "Trace_BufPool.cfg", Run: runPoolCase, Sig: sigPool, ParallelGC: true})
 
 func genPoolCases(c *Ctx) []json.RawMessage {
 	var out []json.RawMessage
